@@ -26,6 +26,7 @@ LEVEL_TEXT = (
     "outside the grid are sampled (random F and frequencies), not exhausted."
 )
 LEVEL_TEXT += " Session 3: a program-level kind - call-exact on samples without reads prints GP = the prior of THAT sample (own ploidy, own inbreeding coefficient from a per-sample file, the record's normalised / masked frequencies) - and a designed rare-allele frequency vector whose product over a large pool leaves the double range."
+LEVEL_TEXT += ' Session 4: the assemble prior on long loci (20-300 SNVs, per-haplotype dispersion down to 1e-180): every copy-number pattern vs the log-space oracle, and total mass over all patterns with exact integer genotype counts.'
 LEVEL_NOTE = "Trusts math.lgamma, fractions.Fraction and the oracle pmf in vlib/oracles/model.py; tolerance 1e-9 relative on probabilities."
 RULE = (
     "cell = (ploidy, n_alleles, inbreeding, frequency vector); every unordered genotype of the cell is evaluated; "
